@@ -30,8 +30,8 @@ Print Assumptions C12_refines_legacy_spec.
 (* T12b: it never panics; every list is strictly increasing in the
    total_cmp order of the times; beat length in [6, 60000]; slider velocity
    in [0.1, 10]; scroll speed in [0.01, 10] and exactly 1 outside
-   taiko/mania; volume in [0, 100]; no bank None; signature positive.
-   (IEEE <= on both sides excludes NaN.) *)
+   taiko/mania; volume in [0, 100]; no bank None; signature positive; every
+   time finite.  (IEEE <= on both sides excludes NaN.) *)
 Theorem C12_sorted_and_clamped :
   forall (g : tp_general) (lines : list str),
   exists c,
@@ -39,13 +39,30 @@ Theorem C12_sorted_and_clamped :
     legacy_spec g lines = Done c /\
     cp_sorted c /\
     (Forall (fun p => (D.le bl_lo (tp_beat_len p) = true /\ D.le (tp_beat_len p) bl_hi = true) /\
-                      0 < tp_sig p) (cp_timing c) /\
-     Forall (fun p => D.le sv_lo (dp_sv p) = true /\ D.le (dp_sv p) sv_hi = true) (cp_difficulty c) /\
+                      0 < tp_sig p /\ is_finite (tp_time p) = true) (cp_timing c) /\
+     Forall (fun p => (D.le sv_lo (dp_sv p) = true /\ D.le (dp_sv p) sv_hi = true) /\
+                      is_finite (dp_time p) = true) (cp_difficulty c) /\
      Forall (fun p => (D.le sc_lo (ep_scroll p) = true /\ D.le (ep_scroll p) sc_hi = true) /\
-                      (scroll_mode (g_mode g) = false -> ep_scroll p = D.one)) (cp_effect c) /\
-     Forall (fun p => vol_lo <= sp_vol p <= vol_hi /\ sp_bank p <> bank_none) (cp_sample c)).
+                      (scroll_mode (tpg_mode g) = false -> ep_scroll p = D.one) /\
+                      is_finite (ep_time p) = true) (cp_effect c) /\
+     Forall (fun p => vol_lo <= sp_vol p <= vol_hi /\ sp_bank p <> bank_none /\
+                      is_finite (sp_time p) = true) (cp_sample c)).
 Proof. exact tp_decode_good. Qed.
 Print Assumptions C12_sorted_and_clamped.
+
+(* ... and numerically strictly increasing (IEEE <) for every list that does
+   not hold points at both -0.0 and +0.0: that pair is the only way the
+   total_cmp order and the numeric order of stored times can differ (known
+   finding D8; witness C12_signed_zero_witness below) *)
+Theorem C12_numeric_order_outside_D8 :
+  forall (g : tp_general) (lines : list str),
+  exists c, tp_decode g lines = Done (c, spec_results g lines) /\
+    (~ mixed_zero (map tp_time (cp_timing c)) -> num_sorted (map tp_time (cp_timing c))) /\
+    (~ mixed_zero (map dp_time (cp_difficulty c)) -> num_sorted (map dp_time (cp_difficulty c))) /\
+    (~ mixed_zero (map ep_time (cp_effect c)) -> num_sorted (map ep_time (cp_effect c))) /\
+    (~ mixed_zero (map sp_time (cp_sample c)) -> num_sorted (map sp_time (cp_sample c))).
+Proof. exact tp_decode_numeric. Qed.
+Print Assumptions C12_numeric_order_outside_D8.
 
 (* the runs of the specification partition the accepted lines in order *)
 Theorem C12_runs_partition :
@@ -103,8 +120,8 @@ Print Assumptions C12_fields_by_position.
 
 Theorem C12_field_defaults :
   forall g,
-  f_sig None = Some 4 /\ f_bank g None = Some (g_bank g) /\ f_custom None = Some 0 /\
-  f_vol g None = Some (g_volume g) /\ f_tc None = true /\ f_flags None = Some (false, false) /\
+  f_sig None = Some 4 /\ f_bank g None = Some (tpg_bank g) /\ f_custom None = Some 0 /\
+  f_vol g None = Some (tpg_volume g) /\ f_tc None = true /\ f_flags None = Some (false, false) /\
   (forall s, f_sig (Some (48 :: s)) = Some 4) /\
   (forall s, f_tc (Some s) = match s with 49 :: _ => true | _ => false end).
 Proof. exact field_defaults. Qed.
@@ -116,7 +133,7 @@ Theorem C12_two_field_line :
   obnd (pn_f64 t) (fun time => obnd (f_beat b) (fun beat =>
   if D.is_nan beat then None
   else Some (mkLine time beat (speed_multiplier beat) 4
-               (if g_bank g =? bank_none then bank_normal else g_bank g) 0 (g_volume g)
+               (if tpg_bank g =? bank_none then bank_normal else tpg_bank g) 0 (tpg_volume g)
                true false false))).
 Proof. exact two_field_line. Qed.
 Print Assumptions C12_two_field_line.
@@ -158,7 +175,7 @@ Proof. vm_compute. reflexivity. Qed.
 (* ---------- non-vacuity and witnesses (on dumps: floats as bit patterns) ---------- *)
 
 Definition f (n : Z) : F64 := D.of_Z n.
-Definition g0 : tp_general := mkG 0 1 100.
+Definition g0 : tp_general := mkTPG 0 1 100.
 Definition run (g : tp_general) (lines : list string) : list Z :=
   dump_decode (tp_decode g (map lit lines)).
 (* per-line flags (1 = Ok, 0 = Rejected), then the four lists *)
@@ -202,14 +219,14 @@ Proof. vm_compute. reflexivity. Qed.
 (* T12d witnesses: mania, defaults bank None (-> Normal) and volume 70;
    "5,-1": beat length clamped to 6, velocity 100/1 clamped to 10, scroll 10 *)
 Example C12_two_fields_witness :
-  run (mkG 3 0 70) ["5,-1"]
+  run (mkTPG 3 0 70) ["5,-1"]
   = expect [1] (mkCP [mkTP (f 5) (f 6) false 4] [mkDP (f 5) (f 10) true]
                      [mkEP (f 5) false (f 10)] [mkSP (f 5) 1 70 0]).
 Proof. vm_compute. reflexivity. Qed.
 
 (* cutting after each field in turn *)
 Example C12_every_cut :
-  map (fun l => run (mkG 0 2 70) [l])
+  map (fun l => run (mkTPG 0 2 70) [l])
       ["9,500,3"; "9,500,3,3"; "9,500,3,3,5"; "9,500,3,3,5,40"; "9,500,3,3,5,40,0"; "9,500,3,3,5,40,0,9"]
   = [ expect [1] (mkCP [mkTP (f 9) (f 500) false 3] [] [] [mkSP (f 9) 2 70 0]);
       expect [1] (mkCP [mkTP (f 9) (f 500) false 3] [] [] [mkSP (f 9) 3 70 0]);
